@@ -1940,6 +1940,13 @@ class CloneAnalysis:
                 continue
             found = True
             key, is_sub = lk
+            key0, id_nullable = key, False
+            if isinstance(key, ast.IfExp) and isinstance(key.orelse, ast.Constant) and key.orelse.value is None:
+                # hoisted id:  pid = S.parent.id if S.parent else None;  ... map[pid] / map.get(pid)
+                mb = match("$s.parent.id", key.body)
+                mt = match("$p is not None", key.test)
+                if mb and (same(key.test, key.body.value) or (mt and same(mt['p'], key.body.value))):
+                    key, id_nullable = key.body, True
             mk = match("$s.parent.id", key)
             sl = L.lab(mk['s'], cn, {}) if mk else None
             if not mk or sl.kind != 'SRC':
@@ -1965,7 +1972,22 @@ class CloneAnalysis:
                         rel_bad('refute', f"the parent lookup runs under {txt}, i.e. when the source task has NO parent (inverted test)")
                         bad_here = True
                     continue
+                if same(atom, key0) or same(atom, key) or (match("bool($k)", atom) and (same(atom.args[0], key0) or same(atom.args[0], key))):
+                    # the truth value of an ID decides whether the parent is assigned
+                    rel_bad('refute', f"the parent of the copy is assigned only under the truth value of the parent's id "
+                                      f"(`{'' if pol else 'not '}{self.text(atom)[:50]}`): ids are opaque values, 0 and '' are valid ids, so the "
+                                      f"children of a task with a falsy id are never attached to its copy and drop out of the new WBS; test "
+                                      f"`is not None` (or the parent task itself)")
+                    bad_here = True
+                    continue
                 m = match("$p is not None", atom) or match("$p is None", atom)
+                if m and id_nullable and same(m['p'], key0):
+                    if isinstance(atom.ops[0], ast.IsNot) == pol:
+                        nonnull = True
+                    else:
+                        rel_bad('refute', f"the parent lookup runs under {txt}, i.e. when the source task has NO parent (inverted test)")
+                        bad_here = True
+                    continue
                 if m and same(m['p'], par_expr):
                     if isinstance(atom.ops[0], ast.IsNot) == pol:
                         nonnull = True
@@ -1974,9 +1996,13 @@ class CloneAnalysis:
                         bad_here = True
                     continue
                 m = match("$k in $m", atom) or match("$k not in $m", atom)
-                if m and L.is_map(m['m']) and same(m['k'], key):
+                if m and (same(m['k'], key) or same(m['k'], key0)) and \
+                        (L.is_map(m['m']) or L.lab(m['m'], cn, {}).kind in ('SRCMAP', 'SRCKEYS')):
+                    # `pid in <clone map>` / `pid in <selection by id>`: every selected id has a copy in the clone map
                     if isinstance(atom.ops[0], ast.In) == pol:
                         in_map = True
+                        if id_nullable and same(m['k'], key0):
+                            nonnull = True          # None is no key of the map: the test also says that there is a parent
                     else:
                         rel_bad('refute', f"the parent is looked up only under {txt}, i.e. when its id is NOT in the clone map")
                         bad_here = True
@@ -2043,6 +2069,18 @@ class CloneAnalysis:
         it, bad = strip_seq_wrappers(g.iter)
         if bad:
             rel_bad('refute', f"`{rel}` of the copy is built from {'/'.join(bad)}(<source list>): the source's list order is not preserved")
+        # a pre-filtered view of the source list (`part = [y for y in S.R if C(y)]`, hoisted or inline): its filters are filters
+        # of the rebuild
+        pre_ifs = []
+        depth = 0
+        while isinstance(it, (ast.ListComp, ast.GeneratorExp)) and len(it.generators) == 1 and depth < 3 and \
+                isinstance(it.generators[0].target, ast.Name) and isinstance(it.elt, ast.Name) and it.elt.id == it.generators[0].target.id:
+            ig = it.generators[0]
+            pre_ifs += [_rename(c, ig.target.id, x) for c in ig.ifs]
+            it, b2 = strip_seq_wrappers(ig.iter)
+            if b2:
+                rel_bad('refute', f"`{rel}` of the copy is built from {'/'.join(b2)}(<source list>): the source's list order is not preserved")
+            depth += 1
         if not isinstance(it, ast.Attribute):
             rel_bad('undecided', f"`{rel}` of the copy iterates `{sh(g.iter)[:60]}`, not a relation of the source task")
             return False
@@ -2055,7 +2093,7 @@ class CloneAnalysis:
         if sl.origin is None or sl.origin != origin:
             rel_bad('refute', f"`{rel}` of the copy of one task is rebuilt from another task's list (`{sh(it)[:60]}`)")
         has_in = False
-        for c in g.ifs:
+        for c in list(g.ifs) + pre_ifs:
             for atom, pol in facts.split_conj(c, True):
                 txt = f"`{'' if pol else 'not '}{sh(atom)[:70]}`"
                 m = match("$k in $m", atom) or match("$k not in $m", atom)
@@ -2064,6 +2102,13 @@ class CloneAnalysis:
                         has_in = True
                     else:
                         rel_bad('refute', f"`{rel}` keeps only tasks under {txt}, i.e. whose id is NOT in the clone map")
+                    continue
+                if m and (match(f"{x}.id", m['k']) or (isinstance(m['k'], ast.Name) and m['k'].id == x)) and \
+                        L.lab(m['m'], cn, {}).kind in ('SRCMAP', 'SRCS', 'SRCKEYS') and isinstance(atom.ops[0], ast.NotIn) == pol:
+                    rel_bad('refute', f"`{src(tgt)}` is assigned only the part of the source's `{rel}` that lies OUTSIDE the selection "
+                                      f"({txt}): the assignment replaces the whole list, so links to selected tasks that the mirror "
+                                      f"update of the other side had already restored are removed again (and never come back when that "
+                                      f"other task was processed earlier); the only filter allowed is `{x}.id in {self.mapvar}`")
                     continue
                 if x in {n.id for n in ast.walk(atom) if isinstance(n, ast.Name)}:
                     rel_bad('refute', f"`{rel}` of the copy is additionally filtered by {txt}: links are dropped (or kept) by something "
